@@ -72,6 +72,7 @@ Definition T_EMIT := 7.
 Definition T_FRESH := 8.    (* an insert received an occupied offset; detail = statement index *)
 Definition T_RESTORE := 9.  (* model-internal: restore (snapshot s) differs from s *)
 Definition T_REPLICA := 10. (* model-internal: replaying the emitted commits differs from s *)
+Definition T_WF := 11.      (* not a disagreement: the transaction is outside the side conditions of the invariant theorems *)
 
 Definition first_diff {A} `{EqDecision A} (m1 m2 : gmap N A) : N :=
   match filter (λ i, m1 !! i ≠ m2 !! i) (sorted_elems (dom m1 ∪ dom m2)) with
@@ -155,7 +156,9 @@ Definition do_step (cs : cstate) (st : step) : cstate * list (N * N) :=
             (length (emitted s')),
        if decide (count s' = cnt) then [] else [(T_COUNT, count s')])
   | StTxn body cp o =>
-      let '(s', rs) := run_txn s body cp in compare cs s' rs o
+      let '(s', rs) := run_txn s body cp in
+      let '(cs', d) := compare cs s' rs o in
+      (cs', (if txn_wf s body then [] else [(T_WF, 0)]) ++ d)
   | StNested pre inner icp post cp o =>
       (* a complete transaction [inner] runs while the outer one is in flight *)
       let '(s1, t1, r1) := do_stmts s txn0 pre in
